@@ -501,7 +501,19 @@ func (fr *Frame) execBlock(b *ssa.BasicBlock, st *State) {
 func (u *Unit) havocAll(st *State) {
 	a := u.get(st, "alloc")
 	u.epoch++
-	st.comp = map[string]Term{}
+	// the ghost event trace is not part of the heap: it survives (events of a callback are the callback's own)
+	keep := map[string]Term{}
+	for k := range u.compSort {
+		if k == "clock" || strings.HasPrefix(k, "cnt_") || strings.HasPrefix(k, "arg_") || strings.HasPrefix(k, "at_") {
+			keep[k] = u.get(st, k)
+		}
+	}
+	for k, v := range st.comp {
+		if k == "clock" || strings.HasPrefix(k, "cnt_") || strings.HasPrefix(k, "arg_") || strings.HasPrefix(k, "at_") {
+			keep[k] = v
+		}
+	}
+	st.comp = keep
 	st.epoch = u.epoch
 	n := u.fresh("alloc", "Int")
 	u.assume("(>= " + n + " " + a + ")")
